@@ -46,6 +46,7 @@ type c06Spec struct {
 	Msgs        []c06Msg `json:"msgs"`
 	Headers     []string `json:"headers,omitempty"`     // http-stateful: Mcp-Protocol-Version per message ("" = absent)
 	Established bool     `json:"established,omitempty"` // http-stateful: a legacy session is initialized first and its id sent along
+	Preset      bool     `json:"preset,omitempty"`      // stdio: the session is created from ServerSessionOptions.State describing a completed handshake
 }
 
 var c06Supported = []string{"2026-07-28", "2025-11-25", "2025-06-18", "2025-03-26", "2024-11-05"}
@@ -198,6 +199,7 @@ func genC06(r *vh.Rand) c06Spec {
 	for i, k := 0, r.Range(3, 10); i < k; i++ {
 		s.Msgs = append(s.Msgs, g.next(s.Transport == "http-stateless"))
 	}
+	s.Preset = s.Transport == "stdio" && r.Chance(1, 6)
 	return s
 }
 
@@ -475,7 +477,16 @@ func runC06(c *vh.Case, spec c06Spec) {
 	if spec.Transport == "stdio" {
 		cr, sw := io.Pipe()
 		sr, cw := io.Pipe()
-		ss, err := server.Connect(ctx, &mcp.IOTransport{Reader: sr, Writer: sw}, nil)
+		var sso *mcp.ServerSessionOptions
+		if spec.Preset {
+			// a session restored from saved state: the handshake is already complete
+			sso = &mcp.ServerSessionOptions{State: &mcp.ServerSessionState{
+				InitializeParams:  &mcp.InitializeParams{ProtocolVersion: "2025-06-18", ClientInfo: &mcp.Implementation{Name: "preset", Version: "1"}, Capabilities: &mcp.ClientCapabilities{}},
+				InitializedParams: &mcp.InitializedParams{},
+			}}
+			initName, initd = "preset", true
+		}
+		ss, err := server.Connect(ctx, &mcp.IOTransport{Reader: sr, Writer: sw}, sso)
 		if err != nil {
 			c.Inconclusive("connect: %v", err)
 			return
